@@ -120,6 +120,11 @@ Definition collapse_case (n : nat) (tq : list nat) (shot : nat) (psi : list Zi) 
    (* what the code does: the recorded bits belong to the sorted qubits *)
    opt_eqb zi_list_eqb (collapsed m) (Some (project n (sort_nat tq) (recorded m) psi))).
 
+(* specification side only: the projection onto the outcome the IMPLEMENTATION recorded (read in the
+   gate's own qubit order) and its squared norm, to judge the implementation's collapsed state *)
+Definition projection_on_recorded (n : nat) (tq : list nat) (psi : list Zi) (rec_impl : bits) : list Z * Z :=
+  let p := project n tq rec_impl psi in (flat_zi p, zsum (map zi_norm2 p)).
+
 Definition mat_eqb (a b : list (list Zi)) : bool := list_eqb zi_list_eqb a b.
 
 (* ---- Circuit.add bookkeeping and per-shot execution of circuits whose measurements were
